@@ -123,10 +123,8 @@ impl<F: Field> PolynomialCoeffs<F> {
             tmp.coeffs.iter_mut().for_each(|x| *x = -(*x));
             tmp.trim();
             let mut b = &a * &tmp;
-            b.trim();
-            if b.len() > l {
-                b.coeffs.drain(l..);
-            }
+            // `b` holds the next `l` coefficients of the inverse, trailing zeros included.
+            b.coeffs.resize(l, F::ZERO);
             a.coeffs.extend_from_slice(&b.coeffs);
         }
         a.coeffs.drain(n..);
